@@ -232,6 +232,44 @@ func init() {
 				})
 			}
 		}
+		// --- api/rpc: does wpIterator.init validate the whole packet? (commit c6bbc14) -----------------------------------
+		// fact: init contains a `for i := 0; i < wpi.recs; i++` loop that calls unmarshalLogEvent and NewFieldsFromKVString and
+		// returns an error from inside
+		validates := false
+		if f := parseFile("api/rpc/ingestor.go"); f != nil {
+			if fd := funcDecl(f, "wpIterator", "init"); fd == nil {
+				problem("wpIterator.init not found in api/rpc/ingestor.go")
+			} else {
+				ast.Inspect(fd.Body, func(n ast.Node) bool {
+					fs, ok := n.(*ast.ForStmt)
+					if !ok || fs.Cond == nil || strings.Replace(exprString(fs.Cond), " ", "", -1) != "i<wpi.recs" {
+						return true
+					}
+					dec, kv, ret := false, false, 0
+					ast.Inspect(fs.Body, func(m ast.Node) bool {
+						switch x := m.(type) {
+						case *ast.CallExpr:
+							if id, ok := x.Fun.(*ast.Ident); ok && id.Name == "unmarshalLogEvent" {
+								dec = true
+							}
+							if se, ok := x.Fun.(*ast.SelectorExpr); ok && se.Sel.Name == "NewFieldsFromKVString" {
+								kv = true
+							}
+						case *ast.ReturnStmt:
+							ret++
+						}
+						return true
+					})
+					if dec && kv && ret >= 2 {
+						validates = true
+					}
+					return true
+				})
+			}
+		}
+		l.p("/-- `wpIterator.init` decodes every announced event and parses its field text before it accepts the packet -/")
+		l.p("def wpInitValidates : Bool := %s", leanBool(validates))
+
 		// --- pkg/lql: a nesting guard in front of the recursive-descent parser (finding F25) --------------------------
 		// fact: some function of pkg/lql compares a depth counter with the constant cMaxNestingDepth and returns an error, and every
 		// function that hands a text to participle (`….ParseString(text, …)`) calls it on that text first.
